@@ -93,3 +93,6 @@ Inductive sread_case := CR (c : read_case) | CV (c : vm_case).
 Definition check_sread (c : sread_case) : bool :=
   match c with CR c => check_read c | CV c => check_vm c end.
 Definition bad_sread := bad check_sread.
+
+(* shorthand used by the generated case files: n copies of byte b *)
+Definition rep (b n : N) : bytes := repeat b (N.to_nat n).
